@@ -41,6 +41,12 @@ def build_stmt(spec, sid=None, depends_on=()):
         kw["depends_on"] = depends_on
     if k == "assign":
         _, name, idx, e, loops, cond = spec
+        if idx is not None and idx[0] == "tuple":
+            # a left-hand side with several subscripts (only the lhs= path of the constructor builds it)
+            from pymbolic.primitives import Subscript, Variable
+            return L.Assign(lhs=Subscript(Variable(name), tuple(exprdsl.build(x) for x in idx[1:])), rhs=exprdsl.build(e),
+                            loops=[(i, exprdsl.build(lo), exprdsl.build(hi)) for i, lo, hi in loops],
+                            condition=build_cond(cond), **kw)
         return L.Assign(assignee=name,
                         assignee_subscript=() if idx is None else (exprdsl.build(idx),),
                         expression=exprdsl.build(e),
@@ -73,7 +79,10 @@ def spec_exprs(spec):
     out = []
     if k == "assign":
         _, name, idx, e, loops, cond = spec
-        if idx is not None:
+        if idx is not None and idx[0] == "tuple":
+            for x in idx[1:]:
+                out.append(("lhs_index", x))
+        elif idx is not None:
             out.append(("lhs_index", idx))
         out.append(("rhs", e))
         for i, lo, hi in loops:
